@@ -21,4 +21,8 @@ def jobs(tier):
     for h, fn in [("h_look_float", ["Float_Look", "scan_from_with"]), ("h_look_int", ["Int_Look (conversion %li)", "scan_from_with"])]:
         J.append(Job("C15.%s" % h[2:], "C15", "K3", "Show/k3.c", h, fn, link=L, replace_calls=RC, unwind=24, gen={"gen_format.h": _C14.header("%d")}, group="numeric.look",
                      cbmc=["--no-malloc-may-fail"], timeout=300, replay="C15_roundtrip.c"))
+    L2 = [x for x in L if x != "src/Num.c"] + ["src/Hash.c"]
+    for h, fn in [("h_show_look_int", ["Int_Show", "Int_Look", "print_to_with", "scan_from_with"]), ("h_show_look_float", ["Float_Show", "Float_Look", "print_to_with", "scan_from_with"])]:
+        J.append(Job("C15.%s" % h[2:], "C15", "K3", "Show/k3.c", h, fn, link=L2, replace_calls=RC, unwind=24, defines=["CV_NUM_INLINE"], gen={"gen_format.h": _C14.header("%d")}, group="numeric.show_look",
+                     cbmc=["--no-malloc-may-fail"], timeout=300, replay="C15_roundtrip.c"))
     return J
